@@ -87,6 +87,18 @@ CLAIMED = {
         "6 C07",
         TECH,
     ),
+    "C09": (
+        "Bounded solver-based check with a cached pipeline and its uncached twin (RUN-T diamond, tuple-output diamond with default and bound value, "
+        "shared default): histories of two calls - same output, every choice of root-only or intermediate-supplying argument sets, equal or "
+        "different values (hashed, hence 0..1), full_output symbolic - optionally with update_defaults / update_bound / replace applied to both "
+        "twins in between; cache type lru / simple (hybrid, disk and every subset of cached functions in the thorough tier). Every call that "
+        "succeeds uncached returns an equal value (and equal full_output) cached; a repeated equal call does not re-execute a cached function. "
+        "Pipeline.map with a cache on every function and repeated input values equals the denotation, twice.",
+        "Trusted: z3, CrossHair path exhaustion and builtin models (incl. repair R9 of its dict union). Outside: shared (manager) caches, parallel "
+        "shared-cache maps, lazy pipelines, histories longer than 2-3 calls.",
+        "6 C09",
+        TECH,
+    ),
     "C11": (
         "Bounded solver-based check of Pipeline.subpipeline(I, S), map(output_names=S) and map(auto_subpipeline=True): on the RUN-T tables every "
         "candidate (S of size 1..2, I every minimal computable set of provided names - roots, interior, mixed - and each with one member removed) "
